@@ -1,4 +1,5 @@
 import CppUModel.Proofs.CommandLine
+import CppUModel.Proofs.CommandLineGen
 import CppUModel.Gen.ParseDispatch
 /-!
 # C12 — command line: every argv is parsed safely and means what the help text says
@@ -658,6 +659,309 @@ theorem filter_kinds_meaning (t s : Bytes) :
     (FKind.exclStrict.filter t).accepts s = !(s == t) := by
   simp [FKind.filter, Filter.accepts]
 
+
+/-! ## the regenerated source IS the model
+
+`Gen/ParseHandlers.lean` is the statement-by-statement translation of `CommandLineArguments.cpp` (every function
+`parse` runs, the body of its `for` loop, the constructor's initialiser list, the getters) and of the output
+selection of `CommandLineTestRunner::parseArguments`, regenerated on every check run.  The theorems below tie it to
+the hand-written model for ALL inputs, so everything proved above about `parse` holds for what the source says. -/
+
+/-- `getParameterField`: rest of the argument if longer than the option name, else the next argument (index
+    advanced), else `""` — the translated function equals the model's, for every argument list and name -/
+theorem source_getParameterField_eq (env : Env) (s : Gen.ParseHandlers.St) (a : Bytes) (rest : List Bytes) (name : Bytes) :
+    Gen.ParseHandlers.getParameterField env s (a :: rest) 0 name =
+      ⟨s, Src.kOf (getParameterField name.length a rest.head?).consumed, (getParameterField name.length a rest.head?).val⟩ :=
+  Src.getParameterField_eq env s a rest name
+
+/-- `setRepeatCount` (translated) = model -/
+theorem source_setRepeatCount_eq (env : Env) (c : Config) (p : Bool) (a : Bytes) (rest : List Bytes) :
+    Gen.ParseHandlers.setRepeatCount env ⟨c, p⟩ (a :: rest) 0 =
+      ⟨⟨(setRepeatCount c a rest.head?).cfg, p⟩, Src.kOf (setRepeatCount c a rest.head?).consumed, ()⟩ :=
+  Src.setRepeatCount_eq env c p a rest
+
+/-- `setShuffle` (translated) = model; `shufflingPreSeeded_` is set exactly when a seed was given -/
+theorem source_setShuffle_eq (env : Env) (c : Config) (p : Bool) (a : Bytes) (rest : List Bytes) :
+    Gen.ParseHandlers.setShuffle env ⟨c, p⟩ (a :: rest) 0 =
+      ⟨⟨(setShuffle env c a rest.head?).cfg, Src.preSeededOf p a rest.head?⟩,
+       Src.kOf (setShuffle env c a rest.head?).consumed, (setShuffle env c a rest.head?).good⟩ :=
+  Src.setShuffle_eq env c p a rest
+
+/-- the eight `add…Filter` functions (translated) = the model's `addGroup` / `addName` with the option-name length
+    and flags of that function -/
+theorem source_filter_functions_eq (env : Env) (c : Config) (p : Bool) (a : Bytes) (rest : List Bytes) :
+    Gen.ParseHandlers.addGroupFilter env ⟨c, p⟩ (a :: rest) 0 =
+      ⟨⟨(addGroup 2 false false c a rest.head?).cfg, p⟩, Src.kOf (addGroup 2 false false c a rest.head?).consumed, ()⟩ ∧
+    Gen.ParseHandlers.addStrictGroupFilter env ⟨c, p⟩ (a :: rest) 0 =
+      ⟨⟨(addGroup 3 true false c a rest.head?).cfg, p⟩, Src.kOf (addGroup 3 true false c a rest.head?).consumed, ()⟩ ∧
+    Gen.ParseHandlers.addExcludeGroupFilter env ⟨c, p⟩ (a :: rest) 0 =
+      ⟨⟨(addGroup 3 false true c a rest.head?).cfg, p⟩, Src.kOf (addGroup 3 false true c a rest.head?).consumed, ()⟩ ∧
+    Gen.ParseHandlers.addExcludeStrictGroupFilter env ⟨c, p⟩ (a :: rest) 0 =
+      ⟨⟨(addGroup 4 true true c a rest.head?).cfg, p⟩, Src.kOf (addGroup 4 true true c a rest.head?).consumed, ()⟩ ∧
+    Gen.ParseHandlers.addNameFilter env ⟨c, p⟩ (a :: rest) 0 =
+      ⟨⟨(addName 2 false false c a rest.head?).cfg, p⟩, Src.kOf (addName 2 false false c a rest.head?).consumed, ()⟩ ∧
+    Gen.ParseHandlers.addStrictNameFilter env ⟨c, p⟩ (a :: rest) 0 =
+      ⟨⟨(addName 3 true false c a rest.head?).cfg, p⟩, Src.kOf (addName 3 true false c a rest.head?).consumed, ()⟩ ∧
+    Gen.ParseHandlers.addExcludeNameFilter env ⟨c, p⟩ (a :: rest) 0 =
+      ⟨⟨(addName 3 false true c a rest.head?).cfg, p⟩, Src.kOf (addName 3 false true c a rest.head?).consumed, ()⟩ ∧
+    Gen.ParseHandlers.addExcludeStrictNameFilter env ⟨c, p⟩ (a :: rest) 0 =
+      ⟨⟨(addName 4 true true c a rest.head?).cfg, p⟩, Src.kOf (addName 4 true true c a rest.head?).consumed, ()⟩ :=
+  ⟨Src.addGroupFilter_eq env c p a rest, Src.addStrictGroupFilter_eq env c p a rest, Src.addExcludeGroupFilter_eq env c p a rest,
+   Src.addExcludeStrictGroupFilter_eq env c p a rest, Src.addNameFilter_eq env c p a rest, Src.addStrictNameFilter_eq env c p a rest,
+   Src.addExcludeNameFilter_eq env c p a rest, Src.addExcludeStrictNameFilter_eq env c p a rest⟩
+
+/-- `addGroupDotNameFilter` (translated: `split(".")`, exactly two tokens, `subString(0, size-1)`, flags) = model -/
+theorem source_addGroupDotNameFilter_eq (env : Env) (c : Config) (p : Bool) (a : Bytes) (rest : List Bytes)
+    (lit : Bytes) (strict exclude : Bool) :
+    Gen.ParseHandlers.addGroupDotNameFilter env ⟨c, p⟩ (a :: rest) 0 lit strict exclude =
+      ⟨⟨(addGroupDotName lit strict exclude c a rest.head?).cfg, p⟩,
+       Src.kOf (addGroupDotName lit strict exclude c a rest.head?).consumed,
+       (addGroupDotName lit strict exclude c a rest.head?).good⟩ :=
+  Src.addGroupDotNameFilter_eq env c p a rest lit strict exclude
+
+/-- `addTestToRunBasedOnVerboseOutput` (translated: `subStringFromTill(',', ')')`, `subString(2)`,
+    `subStringFromTill(at(0), ',')`) = model, including the empty value (`at(0)` reads the terminator) -/
+theorem source_addTestToRun_eq (env : Env) (c : Config) (p : Bool) (a : Bytes) (rest : List Bytes) (lit : Bytes) :
+    Gen.ParseHandlers.addTestToRunBasedOnVerboseOutput env ⟨c, p⟩ (a :: rest) 0 lit =
+      ⟨⟨(addTestForm lit c a rest.head?).cfg, p⟩, Src.kOf (addTestForm lit c a rest.head?).consumed, ()⟩ :=
+  Src.addTestToRunBasedOnVerboseOutput_eq env c p a rest lit
+
+/-- `setOutputType` (translated) = model -/
+theorem source_setOutputType_eq (env : Env) (c : Config) (p : Bool) (a : Bytes) (rest : List Bytes) :
+    Gen.ParseHandlers.setOutputType env ⟨c, p⟩ (a :: rest) 0 =
+      ⟨⟨(setOutputType c a rest.head?).cfg, p⟩, Src.kOf (setOutputType c a rest.head?).consumed,
+       (setOutputType c a rest.head?).good⟩ :=
+  Src.setOutputType_eq env c p a rest
+
+/-- `setPackageName` (translated) = model -/
+theorem source_setPackageName_eq (env : Env) (c : Config) (p : Bool) (a : Bytes) (rest : List Bytes) :
+    Gen.ParseHandlers.setPackageName env ⟨c, p⟩ (a :: rest) 0 =
+      ⟨⟨(setPackageName c a rest.head?).cfg, p⟩, Src.kOf (setPackageName c a rest.head?).consumed, ()⟩ :=
+  Src.setPackageName_eq env c p a rest
+
+/-- **The body of the `for` loop of `parse`** (the whole if / else-if chain with its statements and the rejection
+    test, translated) is the model's `step`: same configuration, same verdict, same number of consumed arguments,
+    for every configuration, argument and rest of the vector. -/
+theorem source_loop_body_eq_step (env : Env) (c : Config) (p : Bool) (a : Bytes) (rest : List Bytes) :
+    (Gen.ParseHandlers.parseBody env ⟨c, p⟩ (a :: rest) 0).st.cfg = (step env c a rest.head?).cfg ∧
+    (Gen.ParseHandlers.parseBody env ⟨c, p⟩ (a :: rest) 0).ret = (step env c a rest.head?).good ∧
+    (Gen.ParseHandlers.parseBody env ⟨c, p⟩ (a :: rest) 0).k = (if (step env c a rest.head?).consumed then 1 else 0) := by
+  have hv := Src.parseBody_view env c p a rest
+  refine ⟨?_, ?_, ?_⟩
+  · simpa [Src.view, Src.viewS] using congrArg (·.1) hv
+  · simpa [Src.view, Src.viewS] using congrArg (·.2.1) hv
+  · simpa [Src.view, Src.viewS, Src.kOf] using congrArg (·.2.2) hv
+
+/-- **The regenerated source is the model**, whole run: the constructor's configuration, then the `for` loop over
+    the indices with the translated body, computes `parse` for EVERY argument vector. -/
+theorem source_parse_eq_model (env : Env) (argv : List Bytes) : Src.genParse env argv = parse env argv :=
+  Src.genParse_eq_parse env argv
+
+/-- the constructor's initialiser list (regenerated) sets up the default configuration the model starts from -/
+theorem source_constructor_eq_default :
+    Gen.ParseHandlers.initialConfig = ({} : Config) ∧ Gen.ParseHandlers.initialPreSeeded = false := ⟨rfl, rfl⟩
+
+/-- every `const` getter returns the member the model's `Config` field of that name stands for (regenerated table) -/
+theorem source_getters_eq :
+    Gen.ParseHandlers.getters =
+      [("needHelp", "needHelp", ""), ("isVerbose", "verbose", ""), ("isVeryVerbose", "veryVerbose", ""),
+       ("isColor", "color", ""), ("isListingTestGroupNames", "listGroups", ""),
+       ("isListingTestGroupAndCaseNames", "listNames", ""), ("isListingTestLocations", "listLocations", ""),
+       ("isRunIgnored", "runIgnored", ""), ("runTestsInSeperateProcess", "separateProcess", ""),
+       ("getRepeatCount", "repeatCount", ""), ("isReversing", "reversing", ""), ("isCrashingOnFail", "crashOnFail", ""),
+       ("isRethrowingExceptions", "rethrow", ""), ("isShuffling", "shuffling", ""), ("getShuffleSeed", "shuffleSeed", ""),
+       ("getGroupFilters", "groupFilters", ""), ("getNameFilters", "nameFilters", ""),
+       ("isEclipseOutput", "output", "eclipse"), ("isJUnitOutput", "output", "junit"),
+       ("isTeamCityOutput", "output", "teamcity"), ("getPackageName", "packageName", "")] := by decide
+
+/-- `CommandLineTestRunner::parseArguments` (regenerated output selection) creates exactly the model's outputs:
+    JUnit writer with the package name (plus console and composite when `-v`/`-vv`), TeamCity writer, or console -/
+theorem source_created_outputs_eq (c : Config) :
+    (Gen.ParseHandlers.createdOutputs c).map Src.toModelEv = outputsOf c := Src.createdOutputs_eq c
+
+/-- **End to end, on the source**: for every list of documented options (any order and multiplicity, attached or
+    separated, arbitrary identifier-like values, in-range numbers) the regenerated parser accepts the rendered vector
+    with the documented configuration, and the regenerated runner code creates the documented outputs. -/
+theorem source_parse_render (env : Env) (prog : Bytes) (os : List (Opt × Form)) :
+    Src.genParse env (prog :: render os) = .ok (meaning env (os.map Prod.fst)) ∧
+    (Gen.ParseHandlers.createdOutputs (meaning env (os.map Prod.fst))).map Src.toModelEv =
+      outputsOf (meaning env (os.map Prod.fst)) := by
+  rw [source_parse_eq_model, parse_render]
+  exact ⟨rfl, source_created_outputs_eq _⟩
+
+/-- the regenerated parser is total and stores only parts of its arguments, for every argument vector -/
+theorem source_parse_total_and_from_args (env : Env) (argv : List Bytes) :
+    ((∃ c, Src.genParse env argv = .ok c) ∨ (∃ c, Src.genParse env argv = .reject c)) ∧
+    StringsFromArgs argv.tail (Src.genParse env argv).cfg := by
+  rw [source_parse_eq_model]
+  exact ⟨parse_total env argv, stored_strings_from_args env argv⟩
+
+/-- documented rejections on the regenerated parser: `-h` (help requested) and `-s0` after any documented options -/
+theorem source_rejections (env : Env) (prog : Bytes) (os : List (Opt × Form)) (rest : List Bytes) :
+    Src.genParse env (prog :: (render os ++ [45, 104] :: rest)) =
+      .reject { meaning env (os.map Prod.fst) with needHelp := true } ∧
+    (Src.genParse env (prog :: (render os ++ [45, 115, 48] :: rest))).isOk = false := by
+  rw [source_parse_eq_model, source_parse_eq_model]
+  exact ⟨help_rejects env prog os rest, seed_zero_rejects_parse env prog os rest⟩
+
+/-- **`CommandLineTestRunner::runAllTests`** (regenerated from the source as the list of calls it makes, with
+    `initializeTestRun` inlined and the `while (loopCount++ < repeatCount)` loop as a map over the repetitions): the calls
+    to the registry are exactly the model's, for every configuration — separate process first, a list mode returns
+    early (group names before names before locations), reverse before the loop, shuffle (with the parsed seed) before
+    every run. -/
+theorem source_runner_calls_eq (ps : List ProbeTest) (c : Config) :
+    (runner ps (.ok c)).calls =
+      [.install nameSetPointer] ++ (Gen.ParseHandlers.runAllTests c).filterMap Src.evCall ++ [.remove nameSetPointer] :=
+  Src.runner_calls_eq ps c
+
+/-- **`initializeTestRun`** (regenerated): what it switches on is the model's reading of the configuration — verbosity 2
+    for `-vv` even together with `-v`, colour, separate process, run-ignored, crash-on-fail, rethrow mode -/
+theorem source_init_effects_eq (c : Config) :
+    (Gen.ParseHandlers.initializeTestRun c).foldl Src.applyEv {} =
+      ⟨verbosityOf c, c.color, c.separateProcess, c.runIgnored, c.crashOnFail, c.rethrow⟩ :=
+  Src.init_effects_eq c
+
+/-- what the regenerated `runAllTests` prints itself: the seed line (once, with the configured seed) iff shuffling and
+    no list mode — the model's `seedLine` — and `printTestRun(i, n)` for i = 1 … n — the model's `runHeaders` -/
+theorem source_runner_prints_eq (c : Config) :
+    (Gen.ParseHandlers.runAllTests c).filterMap Src.evPrinted =
+      (match seedLine c true with
+       | some n => ["Test order shuffling enabled with seed: ", toString n, "\n"]
+       | none => []) ∧
+    (Gen.ParseHandlers.runAllTests c).filterMap Src.evHeader =
+      (if listing c then [] else runHeadersFrom c.repeatCount 1 c.repeatCount) := by
+  refine ⟨?_, Src.runner_headers_eq c⟩
+  rw [Src.runner_prints_eq]
+  unfold seedLine
+  cases c.shuffling <;> cases listing c <;> rfl
+
+/-- the failure accounting of the loop and the returned expression of `runAllTests` are the ones the model's return
+    value was written against (kept as parsed text) -/
+theorem source_runner_accounting :
+    Gen.ParseHandlers.loopAccounting =
+      ["(addassign (id failedTestCount) (call (member (id tr) getFailureCount) []))",
+       "if(tr.isFailure())(block [(expr (postinc (id failedExecutionCount)))])"] ∧
+    Gen.ParseHandlers.returnedExpressions =
+      ["(num 0)",
+       "(cast int (cond (bin != (id failedTestCount) (num 0)) (id failedTestCount) (id failedExecutionCount)))"] := by
+  decide
+
+/-- **Whole run, on the regenerated source**: for every list of documented options the regenerated parser yields the
+    documented configuration, the regenerated runner makes exactly the registry calls of that configuration between
+    installing and removing the pointer plugin, and the test bodies that run are the selected ones, repeated. -/
+theorem source_documented_run (env : Env) (prog : Bytes) (os : List (Opt × Form)) (ps : List ProbeTest) :
+    Src.genParse env (prog :: render os) = .ok (meaning env (os.map Prod.fst)) ∧
+    (runner ps (Src.genParse env (prog :: render os))).calls =
+      [.install nameSetPointer] ++
+        (Gen.ParseHandlers.runAllTests (meaning env (os.map Prod.fst))).filterMap Src.evCall ++ [.remove nameSetPointer] ∧
+    (listing (meaning env (os.map Prod.fst)) = false →
+      (runner ps (Src.genParse env (prog :: render os))).ran =
+        (List.replicate (meaning env (os.map Prod.fst)).repeatCount (oneRun (meaning env (os.map Prod.fst)) ps)).flatten) := by
+  have h : Src.genParse env (prog :: render os) = .ok (meaning env (os.map Prod.fst)) := by
+    rw [source_parse_eq_model, parse_render]
+  refine ⟨h, ?_, ?_⟩
+  · rw [h]; exact source_runner_calls_eq ps _
+  · intro hl
+    rw [h]
+    simp only [listing, Bool.or_eq_false_iff] at hl
+    exact runner_ok_runs_selected ps _ ⟨hl.1.1, hl.1.2, hl.2⟩
+
+/-! ## what the created outputs show of the configuration (seed line, run headers, JUnit file names, TeamCity, memory formatter) -/
+
+theorem shuffle_seed_never_zero_documented (env : Env) (os : List Opt) :
+    (meaning env os).shuffling = true → (meaning env os).shuffleSeed ≠ 0 := by
+  unfold meaning
+  suffices ∀ (l : List Opt) (c : Config), (c.shuffling = true → c.shuffleSeed ≠ 0) →
+      ((l.foldl (applyOpt env) c).shuffling = true → (l.foldl (applyOpt env) c).shuffleSeed ≠ 0) from
+    this os {} (by intro h; cases h)
+  intro l
+  induction l with
+  | nil => intro c h; simpa using h
+  | cons o t ih => intro c h; exact ih _ (applyOpt_keeps_seed_nonzero env c o h)
+
+theorem seed_line_iff (c : Config) (shows : Bool) (n : Nat) :
+    seedLine c shows = some n ↔ (c.shuffling = true ∧ listing c = false ∧ shows = true ∧ n = c.shuffleSeed) := by
+  unfold seedLine
+  cases c.shuffling <;> cases listing c <;> cases shows <;> simp [eq_comm]
+
+theorem seed_line_documented_nonzero (env : Env) (prog : Bytes) (os : List (Opt × Form)) (shows : Bool) (n : Nat)
+    (h : seedLine (parse env (prog :: render os)).cfg shows = some n) : n ≠ 0 := by
+  rw [parse_render] at h
+  obtain ⟨hs, _, _, rfl⟩ := (seed_line_iff _ _ _).mp h
+  exact shuffle_seed_never_zero_documented env _ hs
+
+theorem run_headers_eq (c : Config) (shows : Bool) :
+    runHeaders c shows =
+      if listing c = false ∧ shows = true ∧ c.repeatCount > 1
+      then (List.range c.repeatCount).map (fun j => (j + 1, c.repeatCount)) else [] := by
+  unfold runHeaders
+  cases listing c <;> cases shows <;> simp [runHeadersFrom_eq, Nat.add_comm]
+
+/-- every report file name is built from the `-k` package name and the name of a group of the registry (or the empty
+    name), and there is none unless `-ojunit` -/
+theorem junit_files_carry_package (c : Config) (ps : List ProbeTest) (f : Bytes) (h : f ∈ junitFiles c ps) :
+    c.output = .junit ∧ ∃ g, (g = [] ∨ ∃ p ∈ ps, p.group = g) ∧ f = JUnit.createFileName c.packageName g := by
+  unfold junitFiles at h
+  split at h
+  · rename_i hc
+    simp only [Bool.and_eq_true, beq_iff_eq] at hc
+    refine ⟨hc.1.1, ?_⟩
+    rw [mem_sortUniqueBytes, List.mem_map] at h
+    obtain ⟨g, hg, rfl⟩ := h
+    refine ⟨g, ?_, rfl⟩
+    split at hg
+    · simp only [selectedGroups, List.mem_map, List.mem_filter] at hg
+      obtain ⟨p, ⟨hp, _⟩, rfl⟩ := hg
+      exact Or.inr ⟨p, hp, rfl⟩
+    · rcases blockNames_sub c ps none g hg with h | h | ⟨b, hb⟩
+      · exact Or.inl h
+      · exact Or.inr h
+      · cases hb
+  · cases h
+
+/-- with `-ojunit` (no list mode, at least one run) every group that has a selected test gets its report file, named
+    with the `-k` package -/
+theorem junit_selected_group_has_file (c : Config) (ps : List ProbeTest) (p : ProbeTest)
+    (hj : c.output = .junit) (hl : listing c = false) (hr : c.repeatCount > 0)
+    (hp : p ∈ ps) (hs : selects c p.group p.name = true) :
+    JUnit.createFileName c.packageName p.group ∈ junitFiles c ps := by
+  unfold junitFiles
+  simp only [hj, hl, hr, beq_self_eq_true, Bool.not_false, Bool.and_self, decide_true, if_true]
+  rw [mem_sortUniqueBytes]
+  apply List.mem_map_of_mem
+  split
+  · simp only [selectedGroups, List.mem_map, List.mem_filter]
+    exact ⟨p, ⟨hp, hs⟩, rfl⟩
+  · exact blockNames_selected c ps none p hp hs
+
+theorem teamcity_messages_iff (c : Config) :
+    teamcityMessages c = true ↔ (c.output = .teamcity ∧ listing c = false ∧ c.repeatCount > 0) := by
+  unfold teamcityMessages
+  cases c.output <;> cases listing c <;> simp
+
+theorem memformatter_type_of_plain_value (t : Bytes) (h : (45 : UInt8) ∉ t) :
+    memFormatterType (litMemoryReport ++ t) = t := by
+  unfold memFormatterType replaceAll
+  have hp : litMemoryReport.isEmpty = false := rfl
+  simp only [hp, Bool.false_eq_true, if_false]
+  have hpre : litMemoryReport.isPrefixOf (litMemoryReport ++ t) = true := by simp
+  have hdrop : (litMemoryReport ++ t).drop litMemoryReport.length = t := List.drop_left
+  have hlen : t.length ≤ (litMemoryReport ++ t).length := by simp
+  generalize litMemoryReport ++ t = a at hpre hdrop hlen
+  cases a with
+  | nil => simp [litMemoryReport] at hpre
+  | cons x a' =>
+    simp only [replaceAllAux, hpre, if_true, List.nil_append, hdrop]
+    exact replaceAllAux_no_dash litMemoryReport.tail _ t h hlen
+
+theorem memformatter_kinds :
+    memFormatterKind (memFormatterType (litMemoryReport ++ [110, 111, 114, 109, 97, 108])) = .normal ∧
+    memFormatterKind (memFormatterType (litMemoryReport ++ [99, 111, 100, 101])) = .code ∧
+    memFormatterKind (memFormatterType (litMemoryReport ++ [122, 122])) = .none ∧
+    memFormatterKind (memFormatterType litMemoryReport) = .none ∧
+    -- the option text twice: both occurrences are removed, the rest decides
+    memFormatterKind (memFormatterType (litMemoryReport ++ litMemoryReport ++ [99, 111, 100, 101])) = .code := by decide
+
 /-! ## non-vacuity: concrete vectors -/
 
 def idAlpha : Ident := ⟨[65, 108, 112, 104, 97], by decide⟩      -- Alpha
@@ -707,5 +1011,29 @@ example : parse env0 [[120], [45, 114], [53]] = .ok { repeatCount := 5 } := by d
 example : parse env0 [[120], [45, 114, 52, 50, 57, 52, 57, 54, 55, 50, 57, 55]] = .ok { repeatCount := 1 } := by decide
 example : parse env0 [[120], [45, 114, 45, 49]] = .ok { repeatCount := 2 ^ 64 - 1 } := by decide
 
+/-- `-s42` is announced as 42; three repetitions are announced as 1/3, 2/3, 3/3; `-ojunit -k pkg` names the files -/
+example : seedLine (parse env0 [[120], [45, 115, 52, 50]]).cfg true = some 42 := by decide
+example : runHeaders { repeatCount := 3 } true = [(1, 3), (2, 3), (3, 3)] := by decide
+example : junitFiles { output := .junit, packageName := idPkg.val, groupFilters := [⟨idAlpha.val, false, false⟩] }
+      [⟨idAlpha.val, idOne.val, false⟩, ⟨[66], idOne.val, false⟩] =
+    -- cpputest_pkg_.xml, cpputest_pkg_Alpha.xml
+    [[99, 112, 112, 117, 116, 101, 115, 116, 95, 112, 107, 103, 95, 46, 120, 109, 108],
+     [99, 112, 112, 117, 116, 101, 115, 116, 95, 112, 107, 103, 95, 65, 108, 112, 104, 97, 46, 120, 109, 108]] := by decide
+example : (45 : UInt8) ∉ ([99, 111, 100, 101] : Bytes) := by decide
+
+/-- the regenerated runner on a concrete configuration: `-p -b -s42 -r2` -/
+def sampleRunCfg : Config :=
+  { separateProcess := true, reversing := true, shuffling := true, shuffleSeed := 42, repeatCount := 2 }
+example : (Gen.ParseHandlers.runAllTests sampleRunCfg).filterMap Src.evCall =
+    [.separateProcess, .reverse, .shuffle 42, .runAll, .shuffle 42, .runAll] := by decide
+
+/-- the regenerated parser run on concrete vectors (no theorem involved): `prog -r 5`, `prog -t a.b.c`, `prog TEST(abc` -/
+example : Src.genParse env0 [[120], [45, 114], [53]] = .ok { repeatCount := 5 } := by decide
+example : Src.genParse env0 [[120], [45, 116], [97, 46, 98, 46, 99]] = .reject {} := by decide
+example : Src.genParse env0 [[120], [84, 69, 83, 84, 40, 97, 98, 99]] =
+    .ok { groupFilters := [⟨[97, 98, 99], true, false⟩], nameFilters := [⟨[], true, false⟩] } := by decide
+example : Src.genParse env0 ([120] :: render sampleOpts) = .ok (meaning env0 (sampleOpts.map Prod.fst)) := by decide
+/-- the index really is advanced by the translated helper: `-g Alpha` consumes one extra argument -/
+example : (Gen.ParseHandlers.addGroupFilter env0 ⟨{}, false⟩ [[45, 103], idAlpha.val] 0).k = 1 := by decide
 
 end CommandLine
